@@ -109,10 +109,21 @@ CHECKS += [
      "note": E1_NOTE + " Known finding F6 (boundaries shifted by +start instead of -start; an unedited repository test hard-codes it) is printed as KNOWN-FINDING (F6a-c)."},
 ]
 
+CHECKS += [
+    {"id": "C13", "engine": "E3-statespace", "level": "model_checking", "design_ref": "DESIGN.md §3 C13",
+     "technique": "explicit enumeration of sampler histories under a simulated process group: every (N, world, rank, mode, seed), consumed-epochs vs fresh-at-epoch, every operation sequence (iterate / peek / len / assign epoch) up to depth 3-4 on one sampler object",
+     "text": "For N<=12/24, world<=5/8, every rank, the four uneven modes, sequential and random samplers (seeds 0..3/7): orders after consuming k epochs equal a fresh sampler at init_epoch=k, len == number yielded, per-rank lists are disjoint and cover exactly the documented index set, strict mode raises iff indivisible, ignore gives every rank the full epoch; every sequence of {iterate, peek current, peek next, len, epoch := 0, epoch := 2} up to depth 3/4 leaves the order a function of (seed, epoch) alone. The simulated group is validated against a real 2(3)-process gloo group (traces). States = (configuration, epoch, history) reached, transitions = operations.",
+     "note": MC_NOTE + " torch.distributed is simulated at the four query functions the samplers use."},
+    {"id": "C14", "engine": "E1-small-scope", "level": "exploration", "design_ref": "DESIGN.md §3 C14",
+     "technique": "bounded exhaustive enumeration of bucket assignments x size maps x sampler orders for the bucket sampler, and of length tuples x loader flag grids on real tmpfs directories, against reference length classes and lossless-collation oracles",
+     "text": "BucketBatchSampler: every assignment of n<=6 indices to <=3 buckets, every size map, every permutation order, both drop settings - single-bucket batches in sampler order, right sizes, only trailing short batches, exact cover. Loaders: every length tuple over {1,2,3} for n<=5, batch sizes, bucket counts, dynamic sizing, drop_last, shuffle, sort_batch, batch_first, suppress flags: len == batches yielded for epochs 0..2, identical batches for identical (seed, epoch), bucket purity against reference length classes, lossless collation with correct pad values and attached ids; context windows vs an edge-replicating reference; thorough: len under a simulated process group.",
+     "note": E1_NOTE},
+]
+
 _PENDING = "check under construction in this session; not yet claimed"
 NOT_APPLICABLE = [
     {"property_id": p, "reason": _PENDING}
-    for p in ["C13", "C14"]
+    for p in []
 ]
 
 NOTES = ("All checks are bounded-exhaustive explorations of the real implementation (model-checking family); "
